@@ -41,7 +41,7 @@ UNIVERSE = [
     ("''", lambda: ""), ("'0'", lambda: "0"), ("'1'", lambda: "1"), ("'1.0'", lambda: "1.0"), ("'1.5'", lambda: "1.5"),
     ("'1e3'", lambda: "1e3"), ("' 1 '", lambda: " 1 "), ("'abc'", lambda: "abc"), ("'true'", lambda: "true"),
     ("'NaN'", lambda: "NaN"), ("'inf'", lambda: "inf"), ("'2147483648'", lambda: "2147483648"), ("'é☃'", lambda: "é☃"),
-    ("'RED'", lambda: "RED"), ("'red'", lambda: "red"), ("'PURPLE'", lambda: "PURPLE"),
+    ("'nullify'", lambda: "nullify"), ("'RED'", lambda: "RED"), ("'red'", lambda: "red"), ("'PURPLE'", lambda: "PURPLE"),
     ("bytes", lambda: b"abc"), ("tuple", lambda: (1, 2)), ("emptytuple", lambda: ()), ("set", lambda: {1}),
     ("frozenset", lambda: frozenset([1])), ("generator", _gen), ("range", lambda: range(2)),
     ("dict", lambda: {"x": 1}), ("emptydict", lambda: {}), ("dict-xy", lambda: {"x": 2, "y": "s", "z": 3}),
@@ -59,7 +59,7 @@ UNIVERSE = [
 ]
 TE_LABELS = ["te-bare", "te-path", "te-locations", "te-located", "raise-te-located"]
 CORE = ["None", "1", "'abc'", "1.5", "True", "nan", "2^31", "dict-typename-O", "dict-typename-unknown", "exception",
-        "list", "'RED'"]
+        "list", "'RED'", "'nullify'"]
 UDICT = dict(UNIVERSE)
 
 
@@ -139,7 +139,7 @@ def conforms(kind, t, v, path, problems):
             problems.append(("string-not-str", path + ("y",)))
 
 
-def natural_null(u, sub):
+def natural_null(u, sub, tag=False):
     """is the input value at sub-path (list indices / keys) None (so that a null in the result needs no error)?"""
     cur = u
     for k in sub:
@@ -154,7 +154,7 @@ def natural_null(u, sub):
                 cur = cur.get(k) if isinstance(cur, dict) else getattr(cur, k, None)
         except Exception:
             return False
-    return cur is None
+    return cur is None or (tag and isinstance(cur, str) and cur == "nullify")  # the custom scalar Tag serialises "nullify" to null
 
 
 def nulls_in(v, path, acc):
@@ -205,7 +205,7 @@ def check_case(schema, engine, kind, fname, ftype, label, value, out, shape):
                 else:
                     # every manufactured null is explained by an error at or below it
                     for np_ in nulls_in(data[fname], (fname,), []):
-                        if natural_null(value, np_[1:]):
+                        if natural_null(value, np_[1:], tag=(kind == "Tag")):
                             continue
                         if not any(ep[:len(np_)] == np_ for ep in err_paths):
                             clause = "null-without-error"
